@@ -8,7 +8,23 @@ CRATES = facts.CRATES
 
 
 # --------------------------------------------------------------------------- names
+# Functions RENAMED with respect to the reference tree (World._detect_renames): {normalised current id: normalised reference id}.  Every id and callee
+# goes through norm() / normx(), so a renamed function is seen under its reference name by every table and rule.
+RENAMES = {}
+
+
 def norm(path, precise=False):
+    r = _norm_raw(path, precise)
+    if RENAMES and r is not None:
+        if r in RENAMES:
+            return RENAMES[r]
+        i = r.find('::{closure')
+        if i > 0 and r[:i] in RENAMES:
+            return RENAMES[r[:i]] + r[i:]
+    return r
+
+
+def _norm_raw(path, precise=False):
     """Strip generic arguments from a printed def path, keeping `<T as Trait>` and
     `<impl ...>` qualifiers (recursively normalised)."""
     if path is None:
@@ -36,10 +52,10 @@ def norm(path, precise=False):
                     out.append('<impl ' + _norm_impl_inner(inner[5:]) + '>')
                 else:
                     a, b = _split_as(inner)
-                    out.append('<' + _strip_lt(norm(a)) + ' as ' + (_norm_trait(b) if precise else norm(b)) + '>')
+                    out.append('<' + _strip_lt(_norm_raw(a)) + ' as ' + (_norm_trait(b) if precise else _norm_raw(b)) + '>')
             elif at_seg_start and i == 0 and not _top_level_as(inner):
                 # `<Type>::method` form
-                out.append('<' + norm(inner) + '>')
+                out.append('<' + _norm_raw(inner) + '>')
             else:
                 # turbofish or type args: drop (also drop a preceding '::')
                 if prev.endswith('::'):
@@ -393,6 +409,9 @@ class World:
         return [c for c in CRATES if os.path.exists(os.path.join(self.dir, f'midnight_{c}.hir.json'))]
 
     def hir(self, crate):
+        if not getattr(self, '_renames_done', False):
+            self._renames_done = True
+            self.renamed = detect_renames(self)
         if crate not in self._hir:
             self._hir[crate] = facts.load(self.dir, crate, 'hir')
             self.inlined = getattr(self, 'inlined', {})
@@ -578,8 +597,84 @@ def reference_fn_ids():
     global _REF_FNS
     if _REF_FNS is None:
         p = os.path.join(facts.VERIF, 'rules', 'fn_index.json')
-        _REF_FNS = frozenset(json.load(open(p))) if os.path.exists(p) else False
+        if os.path.exists(p):
+            d = json.load(open(p))
+            _REF_FNS = frozenset(d['all'] if isinstance(d, dict) else d)
+        else:
+            _REF_FNS = False
     return _REF_FNS or None
+
+
+def fn_fingerprint(f):
+    """what a rename leaves unchanged: kind, impl header, parameter and result types, visibility"""
+    import hashlib
+    imp = f.get('impl') or {}
+    t = '|'.join([f.get('kind', ''), str(imp.get('self', '')), str(imp.get('trait', '')), ','.join(f.get('inputs', [])), str(f.get('output', '')), str(f.get('vis', ''))])
+    return hashlib.sha256(t.encode()).hexdigest()[:10]
+
+
+def reference_fn_table(config):
+    """{id: [fingerprints]} of the reference tree under one feature configuration (rules/fn_index.json)"""
+    p = os.path.join(facts.VERIF, 'rules', 'fn_index.json')
+    if not os.path.exists(p):
+        return None
+    d = json.load(open(p))
+    return d.get('configs', {}).get(config) if isinstance(d, dict) else None
+
+
+def detect_renames(world):
+    """Functions of the reference tree that are missing here, matched with NEW functions of the same parent path and the same fingerprint (one to one):
+    a rename.  Fills RENAMES so that the renamed function (its closures, and every call of it) is seen under its reference name."""
+    ref = reference_fn_table(world.config)
+    if not ref:
+        return {}
+    RENAMES.clear()
+    cur = defaultdict(list)
+    precise = defaultdict(set)
+    for c in world.crates():
+        if c not in world._hir:
+            world._hir[c] = facts.load(world.dir, c, 'hir')
+        for f in world._hir[c]['fns']:
+            nid = _norm_raw(f['id'])
+            cur[nid].append(fn_fingerprint(f))
+            precise[nid].add(_norm_raw(f['id'], True))
+    missing = [m for m in ref if m not in cur and '{closure' not in m]
+    new = [n for n in cur if n not in ref and '{closure' not in n]
+    if not missing or not new:
+        _finish_hir_load(world)
+        return {}
+    cand = defaultdict(list)
+    for m in missing:
+        par = m.rsplit('::', 1)[0]
+        for n in new:
+            if n.rsplit('::', 1)[0] == par and sorted(cur[n]) == sorted(ref[m]):
+                cand[m].append(n)
+    claimed = defaultdict(list)
+    for m, ns in cand.items():
+        if len(ns) == 1:
+            claimed[ns[0]].append(m)
+    out = {}
+    for n, ms in claimed.items():
+        if len(ms) == 1:
+            m = ms[0]
+            out[n] = m
+            RENAMES[n] = m
+            old_name = m.rsplit('::', 1)[1]
+            for px in precise[n]:
+                RENAMES[px] = px.rsplit('::', 1)[0] + '::' + old_name
+    _finish_hir_load(world)
+    return out
+
+
+def _finish_hir_load(world):
+    """the crates loaded by detect_renames still need the per-crate post-processing of World.hir()"""
+    world.inlined = getattr(world, 'inlined', {})
+    for c, h in world._hir.items():
+        if c not in world.inlined:
+            for f in h['fns']:
+                f.pop('_nid', None)
+                f.pop('_xid', None)
+            world.inlined[c] = inline_new_helpers(h['fns'], reference_fn_ids())
 
 
 def _shift_locals(n, base):
